@@ -316,6 +316,14 @@ def run(ctx) -> None:
             ok = set(removed) == set(rl.SIGMA) - keep
     ctx.check("R5", ok, "_convert_to_pep440 removes every character except alphanumerics . ! [ ]", "v2patterns._convert_to_pep440: separator stripping changed", "", loc=cv.loc())
     consts = {n.value for n in ast.walk(cv.node) if isinstance(n, ast.Constant) and isinstance(n.value, str)}
+    for n in ast.walk(cv.node):          # constants assembled from parts ("[" + "PYTAGNUM" + "]")
+        if isinstance(n, (ast.BinOp, ast.JoinedStr)):
+            try:
+                v_ = prog.fold(cv.module, n)
+            except AnalysisError:
+                continue
+            if isinstance(v_, str):
+                consts.add(v_)
     ctx.check("R5", "[PYTAGNUM]" in consts and "PYTAGNUM" in consts, "_convert_to_pep440 appends [PYTAGNUM] when absent", "v2patterns._convert_to_pep440: PYTAGNUM suffix handling changed", "", loc=cv.loc())
     # the relocation block, as a pipeline of constant string operations, applied to every short token string:
     # afterwards the tag and its number occur exactly once, adjacent, at the end
@@ -323,12 +331,21 @@ def run(ctx) -> None:
     ctx.require(len(blocks) == 1, "_convert_to_pep440: `if 'PYTAGNUM' not in ...` block not found")
     var = unparse(blocks[0].test.comparators[0])
     steps: T.List[T.Tuple[str, str, str]] = []
+
+    def folded_str(e: T.Optional[ast.AST]) -> T.Optional[str]:          # constants assembled from parts fold to their value
+        if e is None:
+            return None
+        try:
+            v_ = prog.fold(cv.module, e)
+        except AnalysisError:
+            return None
+        return v_ if isinstance(v_, str) else None
     for st in blocks[0].body:
         if isinstance(st, ast.Assign) and unparse(st.targets[0]) == var and isinstance(st.value, ast.Call) and isinstance(st.value.func, ast.Attribute) \
-                and st.value.func.attr == "replace" and unparse(st.value.func.value) == var and len(st.value.args) == 2 and all(const_str(a) is not None for a in st.value.args):
-            steps.append(("replace", const_str(st.value.args[0]), const_str(st.value.args[1])))
-        elif isinstance(st, ast.AugAssign) and unparse(st.target) == var and isinstance(st.op, ast.Add) and const_str(st.value) is not None:
-            steps.append(("append", const_str(st.value), ""))
+                and st.value.func.attr == "replace" and unparse(st.value.func.value) == var and len(st.value.args) == 2 and all(folded_str(a) is not None for a in st.value.args):
+            steps.append(("replace", folded_str(st.value.args[0]), folded_str(st.value.args[1])))
+        elif isinstance(st, ast.AugAssign) and unparse(st.target) == var and isinstance(st.op, ast.Add) and folded_str(st.value) is not None:
+            steps.append(("append", folded_str(st.value), ""))
         elif isinstance(st, ast.Expr) and isinstance(st.value, ast.Constant):
             continue
         else:
